@@ -238,6 +238,27 @@ def gen_cases(seed, tier):
         gid += 1
         for f in FORMS:
             cases.append(dict(kind="lockstep", form=f, ops=render_uniform(ops, f), group=f"dict{gid}", nregs=3))
+    # 2c. the same entries inserted in two different orders, both masses cached, then compared (equality must not look at
+    #     anything that depends on the order — e.g. a floating-point sum); and string constructors that name one key by two
+    #     spellings (`C[13]`, `C[013]`)
+    for _ in range(300 if tier == "thorough" else 60):
+        ks = rng.sample(KEYS[:10] + ["N:0", "S:0", "P:0", "Na:0"], rng.randint(2, 5))
+        ps = [(k, rng.choice([1, 2, 3, 5, 6, 7, 9, 11])) for k in ks]
+        a = ",".join(f"{k}={v}" for k, v in ps)
+        b = ",".join(f"{k}={v}" for k, v in reversed(ps))
+        ops = ["new 0 vec", "new 1 vec", f"fromkv 0 vec iterES {a}", f"fromkv 1 vec iterES {b}", "fmass 0", "fmass 1", "eq 0 1", "eq 1 0",
+               "clone 2 0", "eq 2 1", f"set 1 {ks[0]} {ps[0][1]}", "eq 0 1"]
+        gid += 1
+        for f in FORMS:
+            cases.append(dict(kind="lockstep", form=f, ops=render_uniform(ops, f), group=f"perm{gid}", nregs=3))
+    for _ in range(80 if tier == "thorough" else 20):
+        iso_keys = ["C:13", "O:18", "Cl:37", "Fe:54", "C:12", "H:2"]
+        ps = [(rng.choice(iso_keys), rng.randint(1, 9)) for _ in range(rng.randint(2, 5))]
+        txt = ",".join(f"{k}={v}" for k, v in ps)
+        ops = ["new 0 vec", f"fromkv 0 vec {rng.choice(['vecStrAlias', 'iterStrAlias'])} {txt}"] + [f"get 0 {k}" for k in sorted(set(k for k, _ in ps))] + ["fmass 0"]
+        gid += 1
+        for f in FORMS:
+            cases.append(dict(kind="lockstep", form=f, ops=render_uniform(ops, f), group=f"alias{gid}", nregs=1))
     # 3. random long histories: lock-step groups and mixed-representation ones; one in eight draws its keys from a
     #    pool of 70 keys of the whole table, so that compositions grow past 8, 16, 32, 64 entries (growth of the
     #    vector, resizes of the hash table, any size-triggered switch of representation)
@@ -286,6 +307,8 @@ def via_trait(op, idx):
 
 def case_line(c, impl=False):
     ops = c["ops"]
+    if not impl:
+        ops = [o.replace("StrAlias ", "Str ") for o in ops]   # the model has keys, not spellings
     if impl:
         import zlib
         ops = [(o.replace(" ", "@t ", 1) if via_trait(o, i) else o) for i, o in enumerate(ops)]
